@@ -153,3 +153,32 @@ def observe(conv, queries, prefixes=()):
 def snapshot(conv, queries=(), prefixes=()):
     """Everything observable about a converter: records, indexes, views and the battery."""
     return (canon(conv), views(conv), observe(conv, queries, prefixes))
+
+
+def ident_hook(prefix, identifier):
+    """The identifier hook used for subclass runs: rejects one identifier, strips a redundant tag from others."""
+    if identifier in ("y", "bad"):
+        return None
+    if identifier.startswith("X") and len(identifier) > 1:
+        return identifier[1:]
+    return identifier
+
+
+class HookedConverter(Converter):
+    """A converter using the documented extension point: standardisation and validation of identifiers."""
+
+    def standardize_identifier(self, standard_prefix, identifier):
+        return ident_hook(standard_prefix, identifier)
+
+
+def build_shared_list(mrecs, delimiter=":"):
+    """Two converters are built from ONE list object; the second one and the caller's list are modified afterwards.
+    Returns the first converter: it must be unaffected (its records are its own)."""
+    lst = [to_record(m) for m in mrecs]
+    first = Converter(lst, delimiter=delimiter)
+    second = Converter(lst, delimiter=delimiter)
+    third = Converter(first.records, delimiter=delimiter)
+    second.add_prefix("zz8", "zz8/", prefix_synonyms=["zz8s"])
+    third.add_prefix("zz6", "zz6/")
+    lst.append(Record(prefix="zz7", uri_prefix="zz7/"))
+    return first
